@@ -204,6 +204,59 @@ fn dt_rt(acc: &mut Acc, z: i64, s: u32, f: u32, off: i32) {
     }
 }
 
+/// Histories of length two on one thread: every ordered pair of an alphabet of values whose printed or parsed forms
+/// could share a hidden cache slot (same day of year in a leap and a common year, same second modulo 2^16, offsets in
+/// the same quarter hour, a failed parse before a good one). A result must not depend on the call before it.
+fn history_pairs(acc: &mut Acc) {
+    let dates: Vec<i64> = [(2024i64, 3u32, 1u32), (2023, 3, 2), (2023, 3, 1), (2024, 2, 29), (-4, 2, 29), (10001, 3, 1), (2024, 12, 31), (2023, 12, 31), (67560, 6, 1), (2024, 6, 1), (0, 1, 1), (-1, 12, 31), (9999, 12, 31), (10000, 1, 1)].iter().map(|&(y, m, d)| days_from_civil(y, m, d)).collect();
+    let times: Vec<(u32, u32)> = vec![(3600, 0), (69_136, 0), (86_399, 1_500_000_000), (0, 500_000_000), (86_399, 123_456_000), (86_399, 1_000_123_000), (45_296, 123_000_000), (45_296, 0)];
+    let offs: Vec<i32> = vec![19_800, 20_220, 20_700, 21_180, -11_160, -10_800, 720, -720, 0, -420, 36_000, -36_000];
+    let mut buf = String::with_capacity(64);
+    for &i in &pair_order(dates.len()) {
+        let z = dates[i];
+        let (y, _, _) = civil_from_days(z);
+        date_rt(acc, mk_date(z), y, &mut buf);
+    }
+    for &i in &pair_order(times.len()) {
+        time_rt(acc, times[i].0, times[i].1);
+        // a rejected text in between must leave nothing behind
+        acc.transitions += 1;
+        if "23:59:59.123 UTC".parse::<NaiveTime>().is_ok() || "12:60:00".parse::<NaiveTime>().is_ok() {
+            acc.violation("NaiveTime::from_str:accepts-invalid", "\"23:59:59.123 UTC\" / \"12:60:00\" parsed as NaiveTime".into(), "Err".into(), "Ok".into());
+        }
+        time_rt(acc, times[i].0, times[i].1);
+    }
+    let mut states: Vec<(i64, u32, u32, i32)> = vec![];
+    for (k, &o) in offs.iter().enumerate() {
+        states.push((dates[k % dates.len()], times[k % times.len()].0, times[k % times.len()].1, o));
+    }
+    for &i in &pair_order(states.len()) {
+        let (z, s, f, o) = states[i];
+        dt_rt(acc, z, s, f, o);
+        ndt_rt(acc, z, s, f);
+    }
+    for &i in &pair_order(offs.len()) {
+        let fo = FixedOffset::east_opt(offs[i]).unwrap();
+        acc.transitions += 1;
+        let (d, g) = (fo.to_string(), format!("{:?}", fo));
+        if d.parse::<FixedOffset>() != Ok(fo) || g.parse::<FixedOffset>() != Ok(fo) {
+            acc.violation("FixedOffset:text->FromStr:history", format!("FixedOffset({} s) printed as {:?} / {:?} after another offset", offs[i], d, g), format!("{:?}", fo), format!("{:?} / {:?}", d.parse::<FixedOffset>(), g.parse::<FixedOffset>()));
+        }
+    }
+    // names: the same text twice in a row, valid and invalid, must get the same verdict both times
+    for txt in ["septem", "Augustin", "Saturdax", "Saturday", "Wednesdax", "may", "mayy", "sun", "su"] {
+        for _ in 0..2 {
+            acc.transitions += 2;
+            let (w, m) = (txt.parse::<Weekday>().ok(), txt.parse::<Month>().ok());
+            let ww = ["monday", "tuesday", "wednesday", "thursday", "friday", "saturday", "sunday"].iter().position(|n| *n == txt.to_ascii_lowercase() || n[..3] == txt.to_ascii_lowercase());
+            let mm = ["january", "february", "march", "april", "may", "june", "july", "august", "september", "october", "november", "december"].iter().position(|n| *n == txt.to_ascii_lowercase() || n[..3] == txt.to_ascii_lowercase());
+            if w.map(|x| x.num_days_from_monday() as usize) != ww || m.map(|x| x.number_from_month() as usize - 1) != mm {
+                acc.violation("Weekday/Month::from_str:history", format!("{:?}.parse::<Weekday>() / ::<Month>() (repeated)", txt), format!("{:?} / {:?}", ww, mm), format!("{:?} / {:?}", w, m));
+            }
+        }
+    }
+}
+
 fn small_types(acc: &mut Acc) {
     for m in -1439..=1439i32 {
         let fo = FixedOffset::east_opt(m * 60).unwrap();
@@ -333,6 +386,7 @@ fn main() {
             }
         } else {
             small_types(acc);
+            history_pairs(acc);
             acc.traces += 1;
         }
     });
